@@ -49,6 +49,10 @@ func convertReflectValueToType(rv reflect.Value, rt reflect.Type) (reflect.Value
 			// for runVMFunction conversions, call convertVMFunctionToType
 			return convertVMFunctionToType(rv, rt)
 		case reflect.Ptr:
+			if rv.IsNil() {
+				// a nil pointer stays a nil pointer, of the wanted type
+				return reflect.Zero(rt), nil
+			}
 			// both rv and rt are pointers, convert what they are pointing to
 			value, err := convertReflectValueToType(rv.Elem(), rt.Elem())
 			if err != nil {
